@@ -429,6 +429,13 @@ static std::vector<Cfg> unit_cfgs(const Unit &u){
         if (tr == 1){ c.ta.assign(ta.begin(), ta.begin()+d); c.tb.assign(tb.begin(), tb.begin()+d); if (u.rule == rule_gausslaguerre || u.rule == rule_gausslaguerreodd || u.rule == rule_gausshermite || u.rule == rule_gausshermiteodd){ c.tb = std::vector<double>{2.0, 0.5, 1.25}; c.tb.resize(d); } }
         out.push_back(c);
     }
+    // curved selection with a strongly negative logarithmic weight: the criterion i - 3 log(i+1) is not monotone, the selected indexes form a lower set only after
+    // the completion step (selectGeneralSet); with level limits present as well (finite limits keep rules of exponential growth small)
+    if (g_prop == "C03" && d == 2 && u.order <= 100) for(auto type : {type_curved, type_ipcurved, type_qpcurved}) for(int depth : (th ? std::vector<int>{2, 3, 4} : std::vector<int>{3})) for(auto &lim : std::vector<std::vector<int>>{{4, 5}, {3, 4}}) for(auto &ab : AB){
+        Cfg c; c.fam = u.fam; c.rule = u.rule; c.dims = d; c.outs = 0; c.depth = depth; c.type = type; c.aw = {1, 1, -3, 0}; c.limits = lim; c.alpha = ab[0]; c.beta = ab[1];
+        if (u.rule == rule_customtabulated) c.custom = repo_root() + "/SparseGrids/GaussPattersonRule.table";
+        out.push_back(c);
+    }
     return out;
 }
 
